@@ -298,3 +298,13 @@ refactor('C17', 'rename local combined in ABTest.__init__', 'forml/application/_
 refactor('C18', 'rename local instance in Generation.Key.__new__', 'forml/io/asset/_directory/level/minor.py', 'Generation.Key.__new__', 'rename', 'instance', 'number')
 refactor('C19', 'get_encoder log line', 'forml/io/layout/_codec.py', 'get_encoder', 'log')
 refactor('C20', 'rename local in Reference.__new__', 'forml/provider/__init__.py', 'Reference.__new__', 'rename', 'qualname', 'path')
+
+# ---- agent-written behaviour-preserving refactorings ("blue team", DESIGN 16): the checks must stay silent -----------
+import glob as _glob
+import os as _os
+import re as _re
+
+for _path in sorted(_glob.glob(_os.path.join(_os.path.dirname(_os.path.abspath(__file__)), 'twins', 'bt-*.diff'))):
+    _m = _re.match(r'bt-(C\d\d)-(\w+)\.diff', _os.path.basename(_path))
+    if _m:
+        ENTRIES.append({'property': _m.group(1), 'name': f'refactoring:{_os.path.basename(_path)[:-5]}', 'kind': 'twin', 'patch': 'selftest/twins/' + _os.path.basename(_path)})
